@@ -410,11 +410,26 @@ def generate():
     rej_media = reject_arms("media_playlist.rs")
     enums = strum_enums()
     rvs = rv_consts()
-    owned = into_owned_maps()
-    sfields = struct_fields()
-    evars = enum_variants()
-    derives = derive_lists()
-    manual = manual_impls()
+    # sections only particular properties depend on are read fail-soft: a source shape the reader
+    # does not recognise empties the section and clears its flag, so that exactly the theorems
+    # about that section stop checking (C17: into_owned; C19: derive lists / manual impls)
+    failed = {}
+    try:
+        owned = into_owned_maps()
+        sfields = struct_fields()
+        evars = enum_variants()
+        for ty in sorted(set(o[0] for o in owned)):
+            if ty not in sfields and ty not in evars:
+                raise TranslatorError("into_owned type %s has no readable declaration" % ty)
+    except TranslatorError as e:
+        failed["into_owned"] = str(e)
+        owned, sfields, evars = [], {}, {}
+    try:
+        derives = derive_lists()
+        manual = manual_impls()
+    except TranslatorError as e:
+        failed["derives"] = str(e)
+        derives, manual = {}, []
 
     L = []
     L.append("(* GENERATED by tools/extract_tables.py from %s — do not edit. *)" % SRC)
@@ -448,6 +463,8 @@ def generate():
     for (ty, fn) in sorted(rvs):
         L.append("Definition rv_%s_%s : N := %d." % (ty, "req" if fn == "required_version" else "intro", rvs[(ty, fn)]))
     L.append("")
+    L.append("Definition into_owned_section_ok : bool := %s." % ("false" if "into_owned" in failed else "true"))
+    L.append("Definition derive_section_ok : bool := %s." % ("false" if "derives" in failed else "true"))
     L.append("(* into_owned field mappings: (type, source variant, built variant, target field, source fields) *)")
     rows = []
     for ty, variant, dvariant, tgt, srcs in owned:
@@ -485,7 +502,7 @@ def generate():
         "master_rejects": rej_master, "media_rejects": rej_media,
         "enums": {k: v for k, v in enums.items()},
         "rv": {"%s.%s" % k: v for k, v in rvs.items()},
-        "into_owned_rows": len(owned), "manual_impls": manual,
+        "into_owned_rows": len(owned), "manual_impls": manual, "failed_sections": failed,
     }
     return "\n".join(L) + "\n", info
 
@@ -507,6 +524,8 @@ def main():
     with open(out + ".json", "w", encoding="utf-8") as f:
         json.dump(info, f, indent=1, sort_keys=True)
     print("tables: %s (%s)" % (out, "unchanged" if old == text else "rewritten"))
+    for k, v in sorted(info["failed_sections"].items()):
+        print("TRANSLATOR-SECTION-FAILED: %s: %s" % (k, v))
 
 
 if __name__ == "__main__":
